@@ -46,6 +46,8 @@ mod scripting;
 mod shell;
 mod signals;
 mod types;
+#[cfg(cicada_verif)]
+mod verif_hooks;
 
 // #[allow(clippy::cast_lossless)]
 fn main() {
